@@ -116,6 +116,7 @@ POSITION_CORPUS = [
     '\n\n   "w\n\tx"\t\tnosuch_o()',
 ]
 BOUNDED = [
+    {"name": "quick_fix_ranges", "kind": "lsp-fix-ranges", "props": ["C23"], "input": common.LSP_FIX_PROGRAMS, "n_inputs": len(common.LSP_FIX_PROGRAMS), "bound": common.LSP_FIX_BOUND, "expect": {}},
     {"name": "position_corpus", "kind": "session-positions", "props": ["C23"], "input": POSITION_CORPUS, "n_inputs": len(POSITION_CORPUS),
      "bound": "%d listed inputs (a failing expression after multi-line strings, comments, multi-byte characters, tabs, blank lines, on the string's last line): every reported position must agree with its offsets" % len(POSITION_CORPUS),
      "expect": {}},
